@@ -114,7 +114,9 @@ def run(ck):
     # ---------------- R2 (premise): the generic reset reaches *every* step, whatever the progress of the abandoned message ----------------
     pr_ = lib.single(prog, PB + "reset")
     sr = [e for e in pr_.calls(lambda e: (e.get("callee") or "") == H + "Private::Step::reset")]
-    ck.require(sr, "ParserBase::reset does not call Step::reset")
+    if not sr:
+        ck.ob("C04-R2", "ParserBase::reset/covers-every-step", False, pr_.loc, pr_,
+              "ParserBase::reset does not reach the steps at all: whatever a step remembers about the message in progress survives the reset")
     for e in sr:
         lp = cfg.innermost_loop(pr_, e.block)
         ok = False
